@@ -109,6 +109,7 @@ def r1(rep, F):
 METHOD_OF = {"has_reject_codes": "reject", "has_return_codes": "return", "is_cover_message": "cover",
              "is_stp_message": "stp"}
 ORDER = ["reject", "return", "cover", "stp", "normal"]
+METHOD_WORDS = set(ORDER)
 
 
 def if_chain(n):
@@ -156,11 +157,13 @@ def r2(rep, F):
         vals = []
         for n in walk(arm["body"]):
             tgt = None
-            if n.get("k") == "assign" and peel(n["l"]).get("name") == "method":
+            # the processing method: a variable assigned / bound from an expression that yields method words
+            if n.get("k") == "assign":
                 tgt = n["r"]
-            if n.get("k") == "let" and n["pat"].get("name") == "method" and n.get("init") is not None:
+            if n.get("k") == "let" and n.get("init") is not None:
                 tgt = n["init"]
-            if tgt is not None:
+            if tgt is not None and any(x.get("k") == "lit" and x.get("t") == "str" and x.get("v") in METHOD_WORDS
+                                       for x in walk(tgt)):
                 vals.append(tgt)
         if not vals:
             rep.add(Finding("R2", b["path"], "%s:no-method" % key, "arm %s does not set the processing method" % key,
